@@ -184,6 +184,27 @@ def generate():
                 calls_outside += 1
         if not guarded or calls_outside != 2:
             raise Unsupported("_extract_frames: values are not computed strictly under `if self._diagnose:`")
+        # the upward walk: `break` for the parent-only (decorator) case must sit INSIDE the visibility test, so that
+        # loguru's own frames above the catching wrapper are skipped until the first foreign caller
+        walks = [n for n in ast.walk(ef) if isinstance(n, ast.While) and _src(n.test) == "frame"]
+        if len(walks) != 1:
+            raise Unsupported("_extract_frames: upward walk `while frame:` not found")
+        wl = walks[0]
+        vis_ifs = [n for n in wl.body if isinstance(n, ast.If) and _src(n.test) == "self._should_include_frame(frame)"]
+        if len(vis_ifs) != 1 or vis_ifs[0].orelse or _src(wl.body[-1]) != "frame = frame.f_back":
+            raise Unsupported("_extract_frames: upward walk body shape")
+
+        def parent_break(stmts):
+            return [n for n in stmts if isinstance(n, ast.If) and _src(n.test) == "get_parent_only"
+                    and len(n.body) == 1 and isinstance(n.body[0], ast.Break) and not n.orelse]
+
+        nbreaks = sum(1 for n in ast.walk(wl) if isinstance(n, ast.Break))
+        inside, outside = parent_break(vis_ifs[0].body), parent_break(wl.body)
+        if nbreaks != 1 or len(inside) + len(outside) != 1:
+            raise Unsupported("_extract_frames: upward walk has %d break statements" % nbreaks)
+        walk_skips_hidden = len(inside) == 1
+        if not any(_src(n).startswith("infos.insert(0, ") for n in vis_ifs[0].body):
+            raise Unsupported("_extract_frames: caller frames are not inserted under the visibility test")
         hid = find_func(tree, "_should_include_frame", CLS)
         if _src(hid.body[0]) != "return frame.f_code.co_filename != self._hidden_frames_filename":
             raise Unsupported("_should_include_frame shape")
@@ -317,6 +338,8 @@ def generate():
         body += "/-- `repr(v)` is inside `try: … except %s:` -/\n" % (guard or "<bare>")
         body += "def reprGuarded : Bool := true\n"
         body += "def unprintablePre : Py.Str := %s\ndef unprintablePost : Py.Str := %s\n" % (lean_chars(ph_pre), lean_chars(ph_post))
+        body += "/-- in the upward walk of `_extract_frames`, `if get_parent_only: break` is inside `if self._should_include_frame(frame):` -/\n"
+        body += "def parentWalkSkipsHidden : Bool := %s\n" % ("true" if walk_skips_hidden else "false")
         body += "/-- `_format_list`: `count > k` / `count - k` -/\ndef foldAfter : Nat := %d\n" % fold
         body += "/-- `n > k` / `len(value.exceptions) - k` -/\ndef groupWidth : Nat := %d\n" % widths[0]
         body += "/-- `group_nesting == k` -/\ndef groupDepth : Nat := %d\n" % depths_big[0]
